@@ -1034,7 +1034,7 @@ func (m *RedisMessage) AsXRead() (ret map[string][]XRangeEntry, err error) {
 	}
 	if m.IsMap() {
 		ret = make(map[string][]XRangeEntry, len(m.values())/2)
-		for i := 0; i < len(m.values()); i += 2 {
+		for i := 0; i+1 < len(m.values()); i += 2 {
 			if ret[m.values()[i].string()], err = m.values()[i+1].AsXRange(); err != nil {
 				return nil, err
 			}
@@ -1131,7 +1131,7 @@ func (m *RedisMessage) AsXReadSlices() (map[string][]XRangeSlice, error) {
 	var err error
 	if m.IsMap() {
 		ret = make(map[string][]XRangeSlice, len(m.values())/2)
-		for i := 0; i < len(m.values()); i += 2 {
+		for i := 0; i+1 < len(m.values()); i += 2 {
 			if ret[m.values()[i].string()], err = m.values()[i+1].AsXRangeSlices(); err != nil {
 				return nil, err
 			}
@@ -1332,7 +1332,7 @@ func (m *RedisMessage) AsFtSearch() (total int64, docs []FtSearchDoc, err error)
 		return 0, nil, err
 	}
 	if m.IsMap() {
-		for i := 0; i < len(m.values()); i += 2 {
+		for i := 0; i+1 < len(m.values()); i += 2 {
 			switch m.values()[i].string() {
 			case "total_results":
 				total = m.values()[i+1].intlen
@@ -1340,7 +1340,7 @@ func (m *RedisMessage) AsFtSearch() (total int64, docs []FtSearchDoc, err error)
 				records := m.values()[i+1].values()
 				docs = make([]FtSearchDoc, len(records))
 				for d, record := range records {
-					for j := 0; j < len(record.values()); j += 2 {
+					for j := 0; j+1 < len(record.values()); j += 2 {
 						switch record.values()[j].string() {
 						case "id":
 							docs[d].Key = record.values()[j+1].string()
@@ -1360,35 +1360,41 @@ func (m *RedisMessage) AsFtSearch() (total int64, docs []FtSearchDoc, err error)
 		return
 	}
 	if len(m.values()) > 0 {
-		total = m.values()[0].intlen
+		vs := m.values()
+		total = vs[0].intlen
 		wscore := false
 		wattrs := false
 		offset := 1
-		if len(m.values()) > 2 {
-			if m.values()[2].string() == "" {
+		// the field list of a document is an aggregate (or null), its key and score are strings
+		isAttrs := func(v *RedisMessage) bool { return v.IsArray() || v.IsMap() || v.IsNil() }
+		if len(vs) > 2 {
+			if isAttrs(&vs[2]) { // total, key, attrs, ...
 				wattrs = true
 				offset++
-			} else {
-				_, err1 := strconv.ParseFloat(m.values()[1].string(), 64)
-				_, err2 := strconv.ParseFloat(m.values()[2].string(), 64)
-				wscore = err1 != nil && err2 == nil
-				offset++
+			} else if len(vs) > 3 && isAttrs(&vs[3]) { // total, key, score, attrs, ...
+				wscore = true
+				wattrs = true
+				offset += 2
+			} else { // NOCONTENT: keys only or key, score pairs
+				_, err1 := strconv.ParseFloat(vs[1].string(), 64)
+				_, err2 := strconv.ParseFloat(vs[2].string(), 64)
+				if wscore = err1 != nil && err2 == nil; wscore {
+					offset++
+				}
 			}
 		}
-		if len(m.values()) > 3 && m.values()[3].string() == "" {
-			wattrs = true
-			offset++
-		}
-		docs = make([]FtSearchDoc, 0, (len(m.values())-1)/offset)
-		for i := 1; i < len(m.values()); i++ {
-			doc := FtSearchDoc{Key: m.values()[i].string()}
+		docs = make([]FtSearchDoc, 0, (len(vs)-1)/offset)
+		for i := 1; i < len(vs); i++ {
+			doc := FtSearchDoc{Key: vs[i].string()}
 			if wscore {
-				i++
-				doc.Score, _ = strconv.ParseFloat(m.values()[i].string(), 64)
+				if i++; i < len(vs) {
+					doc.Score, _ = strconv.ParseFloat(vs[i].string(), 64)
+				}
 			}
 			if wattrs {
-				i++
-				doc.Doc, _ = m.values()[i].AsStrMap()
+				if i++; i < len(vs) {
+					doc.Doc, _ = vs[i].AsStrMap()
+				}
 			}
 			docs = append(docs, doc)
 		}
@@ -1403,7 +1409,7 @@ func (m *RedisMessage) AsFtAggregate() (total int64, docs []map[string]string, e
 		return 0, nil, err
 	}
 	if m.IsMap() {
-		for i := 0; i < len(m.values()); i += 2 {
+		for i := 0; i+1 < len(m.values()); i += 2 {
 			switch m.values()[i].string() {
 			case "total_results":
 				total = m.values()[i+1].intlen
@@ -1411,7 +1417,7 @@ func (m *RedisMessage) AsFtAggregate() (total int64, docs []map[string]string, e
 				records := m.values()[i+1].values()
 				docs = make([]map[string]string, len(records))
 				for d, record := range records {
-					for j := 0; j < len(record.values()); j += 2 {
+					for j := 0; j+1 < len(record.values()); j += 2 {
 						switch record.values()[j].string() {
 						case "extra_attributes":
 							docs[d], _ = record.values()[j+1].AsStrMap()
@@ -1466,6 +1472,9 @@ func (m *RedisMessage) AsGeosearch() ([]GeoLocation, error) {
 			loc.Name = v.string()
 		} else {
 			info := v.values()
+			if len(info) == 0 {
+				return nil, fmt.Errorf("%w: redis message is not a GEOSEARCH response", errParse)
+			}
 			var i int
 
 			//name
@@ -1527,7 +1536,7 @@ func (m *RedisMessage) ToAny() (any, error) {
 		return m.intlen, nil
 	case typeMap:
 		vs := make(map[string]any, len(m.values())/2)
-		for i := 0; i < len(m.values()); i += 2 {
+		for i := 0; i+1 < len(m.values()); i += 2 {
 			if v, err := m.values()[i+1].ToAny(); err != nil && !IsRedisNil(err) {
 				vs[m.values()[i].string()] = err
 			} else {
@@ -1609,7 +1618,7 @@ func (m *RedisMessage) setExpireAt(pttl int64) {
 
 func toMap(values []RedisMessage) (map[string]RedisMessage, error) {
 	r := make(map[string]RedisMessage, len(values)/2)
-	for i := 0; i < len(values); i += 2 {
+	for i := 0; i+1 < len(values); i += 2 {
 		if values[i].typ == typeBlobString || values[i].typ == typeSimpleString {
 			r[values[i].string()] = values[i+1]
 			continue
